@@ -170,6 +170,8 @@ class Constructor:
             return isinstance(obj, bool)
         elif type_ is Any:
             return True
+        elif type_ is None:
+            return obj is None
         else:
             return isinstance(obj, type_)
 
